@@ -143,6 +143,17 @@ def execute(plan: dict, **kw: Any) -> dict:
             "violations": [], "faults": {}, "probes": {}, "sig": "livelock", "final": "livelock", "nontrivial": True,
             "steps": 0, "vtime": 0.0, "deadlock": False, "step_limit": False, "digest": "livelock", "trace": [],
         }
+    if res.get("step_limit"):
+        # bounded liveness: the generated workloads need a few hundred scheduler steps
+        # (max observed on the unchanged tree: ~400); one that is still scheduling after
+        # STEP_CAP steps is spinning (e.g. a wait that returns at once and is retried forever)
+        res["violations"].append(
+            {
+                "rule": f"{plan['property']}.livelock",
+                "key": "step_limit",
+                "msg": f"the run was still scheduling after {core.STEP_CAP} steps: something retries forever without making progress",
+            }
+        )
     if core.LIVELOCKS:
         # a step of the run never returned to the scheduler (see core._LivelockGuard)
         ll = core.LIVELOCKS[0]
